@@ -272,7 +272,8 @@ def ref_globals():
 
 
 def _const_like(v):
-    return isinstance(v, ast.Constant) or (isinstance(v, ast.Tuple) and all(_const_like(e) for e in v.elts))
+    return isinstance(v, ast.Constant) or (isinstance(v, ast.Tuple) and all(_const_like(e) for e in v.elts)) or \
+        (isinstance(v, ast.Dict) and all(k is not None and _const_like(k) for k in v.keys) and all(_const_like(x) for x in v.values))
 
 
 def imported_constants(tree, relpath, loader):
